@@ -1,12 +1,31 @@
 package main
 
+// c16.go — C16 "staked coins leave staking only on schedule": the real node, driven block by
+// block, against Model/Schedule.v (dispatch model 20) plus the C16 monitors evaluated directly on
+// what the node did.
+//
+// Per block the tracer emits: the state the model cannot derive itself (candidate registry, stake /
+// update / waitlist entries changed by EndBlock's recalculation, balances of the accounts
+// involved), BeginBlock with the evidence flags (-> the matured funds as paid), every Unbond /
+// MoveStake / LockStake / Lock / Delegate transaction (-> code, balances, lock mark, created fund,
+// stake and waitlist entries after), every candidate removed by EndBlock (-> the funds created,
+// per owner and coin), and the frozen-fund lists the block touched.
+
 import (
 	"fmt"
 	"math/big"
 	"os"
+	"sort"
+	"strconv"
+	"strings"
+	"time"
 
+	"github.com/MinterTeam/minter-go-node/coreV2/state"
+	"github.com/MinterTeam/minter-go-node/coreV2/state/candidates"
 	"github.com/MinterTeam/minter-go-node/coreV2/transaction"
 	"github.com/MinterTeam/minter-go-node/coreV2/types"
+	abci "github.com/tendermint/tendermint/abci/types"
+	tmproto "github.com/tendermint/tendermint/proto/tendermint/types"
 )
 
 func init() { commands["c16"] = runC16 }
@@ -120,6 +139,71 @@ func c16Monitor(h uint64, prev, cur *types.AppState, lockDue map[uint64]bool, ev
 				*mon = append(*mon, MonitorFailure{What: fmt.Sprintf("C16: balance %s changed by %s in an empty block %d, matured funds for it: %s", key, d, h, want), Key: "c16-maturity-amount", Replay: where})
 			}
 		}
+		// ... and a matured move arrives at its target candidate: the owner's stake + pending update there grows by exactly the moved value
+		staked := func(st *types.AppState) map[string]*big.Int {
+			m := map[string]*big.Int{}
+			add := func(id uint64, s types.Stake) {
+				k := fmt.Sprintf("%d/%s/%d", id, s.Owner.String(), s.Coin)
+				if m[k] == nil {
+					m[k] = big.NewInt(0)
+				}
+				m[k].Add(m[k], bi(s.Value))
+			}
+			for _, c := range st.Candidates {
+				for _, s := range c.Stakes {
+					add(c.ID, s)
+				}
+				for _, s := range c.Updates {
+					add(c.ID, s)
+				}
+			}
+			for _, w := range st.Waitlist { // a full candidate (1000 slots) may pass the arriving coins on to the waitlist (C17)
+				add(w.CandidateID, types.Stake{Owner: w.Owner, Coin: w.Coin, Value: w.Value})
+			}
+			return m
+		}
+		moved := map[string]*big.Int{}
+		for k, n := range pf {
+			if k.H == h && k.Move != 0 {
+				key := fmt.Sprintf("%d/%s/%d", k.Move, k.Addr.String(), k.Coin)
+				if moved[key] == nil {
+					moved[key] = big.NewInt(0)
+				}
+				for i := 0; i < n; i++ {
+					moved[key].Add(moved[key], bi(k.Value))
+				}
+			}
+		}
+		if len(moved) > 0 {
+			ps, cs := staked(prev), staked(cur)
+			for key, want := range moved {
+				a, b := ps[key], cs[key]
+				if a == nil {
+					a = big.NewInt(0)
+				}
+				if b == nil {
+					b = big.NewInt(0)
+				}
+				var id uint64
+				fmt.Sscanf(key, "%d/", &id)
+				if !cands[id] {
+					continue // the target was removed (every node has panicked before: c16-move-target-removed)
+				}
+				gone := true
+				for _, c := range cur.Candidates {
+					if c.ID == id {
+						gone = false
+					}
+				}
+				if gone {
+					continue // removed by this very EndBlock: the arrived coins are frozen funds now
+				}
+				// at the stake-period block EndBlock also pays the delegators' rewards into their stakes (PayRewards: candidate.AddUpdate)
+				if d := new(big.Int).Sub(b, a); (h%stakePeriod != 0 && d.Cmp(want) != 0) || d.Cmp(want) < 0 {
+					*mon = append(*mon, MonitorFailure{What: fmt.Sprintf("C16: stake moves of %s matured at block %d for (candidate/owner/coin) %s but the owner's stake there changed by %s", want, h, key, d), Key: "c16-move-not-delegated", Replay: where})
+				}
+			}
+		}
 	}
 }
 
@@ -133,125 +217,1097 @@ func checkUnlockTag(mon *[]MonitorFailure, tr TxResult, h, period uint64, where 
 	}
 }
 
+// ---- the tracer -----------------------------------------------------------------------------------
+
+type c16tx struct {
+	A       Acct
+	Typ     transaction.TxType
+	Data    interface{}
+	GP      uint32
+	Payload []byte
+	Kind    string
+}
+
+var c16ExportTime, c16CommitTime time.Duration
+
+// c16Long: thorough runs (n >= 20) follow the move-target-removed scenario until the coins are back in the balance
+var c16Long bool
+
+type wlRow struct {
+	id   uint64
+	a    types.Address
+	coin uint64
+}
+
+type c16T struct {
+	nd      *Node
+	c       *Cases
+	mon     *[]MonitorFailure
+	where   string
+	unknown map[types.Pubkey]int64
+	candSt  map[uint64]int // what the model was told: 1 existing, 2 deleted
+	coinSet map[uint64]bool
+	stSent  map[uint64]string
+	upSent  map[uint64]string
+	wlSent  map[string]string
+	prev    types.AppState
+	txFunds []fundKey // funds created by this block's transactions
+	wlRows  map[string]wlRow
+	codes   map[string]int
+	nontriv bool
+	// counters
+	blocks, matured, movesArrived, created, removed, txOps, unmodelled, crashes, evidenceBlocks int
+	dead                                                                                        bool
+	sparse                                                                                      bool // export only after blocks in which something can have changed (large genesis)
+	paidNow                                                                                     int
+	bouncedNow, bounced                                                                         int // matured moves whose target was removed: frozen again for one unbond period
+}
+
+func (t *c16T) ds() *state.State { return t.nd.App.VerifStateDeliver() }
+
+func (t *c16T) fail(key, what string) {
+	*t.mon = append(*t.mon, MonitorFailure{What: what, Key: key, Replay: t.where})
+}
+
+func newC16T(nd *Node, c *Cases, mon *[]MonitorFailure, where string, codes map[string]int) *c16T {
+	t := &c16T{nd: nd, c: c, mon: mon, where: where, unknown: map[types.Pubkey]int64{}, candSt: map[uint64]int{}, coinSet: map[uint64]bool{},
+		stSent: map[uint64]string{}, upSent: map[uint64]string{}, wlSent: map[string]string{}, wlRows: map[string]wlRow{}, codes: codes}
+	c.Begin(20)
+	c.Op(L(Z(0), Z(int64(types.GetUnbondPeriod())), Z(int64(types.GetMovePeriod())), Z(int64(types.GetIncreasedRewardsPeriod())), Z(nd.Height)), L(Z(1), Z(1), Z(1)))
+	t.prev = nd.Export()
+	for _, a := range t.prev.Accounts {
+		if a.LockStakeUntilBlock != 0 {
+			c.Op(L(Z(5), addrZ(a.Address), Z(int64(a.LockStakeUntilBlock))), L(Z(0)))
+		}
+	}
+	return t
+}
+
+// candZ: the model's integer for a public key: its candidate ID when it has (or had) one
+func (t *c16T) candZ(pk types.Pubkey) *big.Int {
+	if id := t.ds().Candidates.ID(pk); id != 0 {
+		return Z(int64(id))
+	}
+	if v, ok := t.unknown[pk]; ok {
+		return Z(v)
+	}
+	v := int64(1000000 + len(t.unknown))
+	t.unknown[pk] = v
+	return Z(v)
+}
+
+func encStakes(l []types.Stake) (string, []*big.Int) {
+	var sb strings.Builder
+	var z []*big.Int
+	for _, s := range l {
+		fmt.Fprintf(&sb, "%s/%d/%s;", s.Owner.String(), s.Coin, s.Value)
+		z = append(z, addrZ(s.Owner), Z(int64(s.Coin)), bi(s.Value))
+	}
+	return sb.String(), z
+}
+
+// syncFromExport tells the model what only EndBlock / other transactions / the genesis decide:
+// the registries and the stake, update and waitlist entries as of the last commit.
+func (t *c16T) syncFromExport() {
+	st := &t.prev
+	for _, co := range st.Coins {
+		if !t.coinSet[co.ID] {
+			t.coinSet[co.ID] = true
+			t.c.Op(L(Z(6), Z(int64(co.ID))), L(Z(0)))
+		}
+	}
+	for _, c := range st.Candidates {
+		if t.candSt[c.ID] != 1 {
+			t.candSt[c.ID] = 1
+			t.c.Op(L(Z(4), Z(int64(c.ID)), Z(1)), L(Z(0)))
+		}
+		if s, z := encStakes(c.Stakes); t.stSent[c.ID] != s {
+			t.stSent[c.ID] = s
+			t.c.Op(append(L(Z(2), Z(int64(c.ID)), Z(int64(len(c.Stakes)))), z...), L(Z(0)))
+		}
+		if s, z := encStakes(c.Updates); t.upSent[c.ID] != s {
+			t.upSent[c.ID] = s
+			t.c.Op(append(L(Z(7), Z(int64(c.ID)), Z(int64(len(c.Updates)))), z...), L(Z(0)))
+		}
+	}
+	for _, d := range st.DeletedCandidates {
+		if t.candSt[d.ID] != 2 {
+			t.candSt[d.ID] = 2
+			t.c.Op(L(Z(4), Z(int64(d.ID)), Z(2)), L(Z(0)))
+		}
+	}
+	cur := map[string]string{}
+	for _, w := range st.Waitlist {
+		k := fmt.Sprintf("%d/%s/%d", w.CandidateID, w.Owner.String(), w.Coin)
+		cur[k] = w.Value
+		t.wlRows[k] = wlRow{w.CandidateID, w.Owner, w.Coin}
+		if t.wlSent[k] != w.Value {
+			t.wlSent[k] = w.Value
+			t.c.Op(L(Z(3), Z(int64(w.CandidateID)), addrZ(w.Owner), Z(int64(w.Coin)), Z(1), bi(w.Value)), L(Z(0)))
+		}
+	}
+	var gone []string
+	for k := range t.wlSent {
+		if _, ok := cur[k]; !ok {
+			gone = append(gone, k)
+		}
+	}
+	sort.Strings(gone)
+	for _, k := range gone {
+		delete(t.wlSent, k)
+		r := t.wlRows[k]
+		t.c.Op(L(Z(3), Z(int64(r.id)), addrZ(r.a), Z(int64(r.coin)), Z(0), Z(0)), L(Z(0)))
+	}
+}
+
+func (t *c16T) syncBal(a types.Address, coin types.CoinID) {
+	t.c.Op(L(Z(1), addrZ(a), Z(int64(coin)), cp(t.ds().Accounts.GetBalance(a, coin))), L(Z(0)))
+}
+
+func (t *c16T) fundsAt(h uint64) []fundKey {
+	ff := t.ds().FrozenFunds.GetFrozenFunds(h)
+	if ff == nil {
+		return nil
+	}
+	var out []fundKey
+	for _, it := range ff.List {
+		out = append(out, fundKey{h, it.Address, uint64(it.CandidateID), uint64(it.Coin), it.Value.String(), uint64(it.GetMoveToCandidateID())})
+	}
+	return out
+}
+
+func optZ(b *big.Int) *big.Int {
+	if b == nil {
+		return Z(-1)
+	}
+	return cp(b)
+}
+
+func (t *c16T) stakeOf(pk types.Pubkey, a types.Address, coin types.CoinID) *big.Int {
+	if !t.ds().Candidates.Exists(pk) {
+		return nil
+	}
+	return t.ds().Candidates.GetStakeValueOfAddress(pk, a, coin)
+}
+
+func (t *c16T) waitOf(pk types.Pubkey, a types.Address, coin types.CoinID) *big.Int {
+	if w := t.ds().Waitlist.Get(a, pk, coin); w != nil {
+		return w.Value
+	}
+	return nil
+}
+
+var c16ModelCodes = map[uint32]bool{0: true, 102: true, 103: true, 106: true, 107: true, 123: true, 403: true, 404: true, 405: true, 408: true, 409: true, 412: true, 415: true, 416: true, 417: true}
+
+// begin runs BeginBlock of height h with byzantine evidence against the given validator indexes.
+func (t *c16T) begin(h uint64, ev []int) bool {
+	nd := t.nd
+	ds := t.ds()
+	// evidence flags as the byzantine loop will see them
+	in := L(Z(20), Z(int64(h)), Z(int64(len(ev))))
+	punished := map[uint32]bool{}
+	for _, i := range ev {
+		tm := nd.Vals[i].TmAdr
+		cand := ds.Candidates.GetCandidateByTendermintAddress(tm)
+		cid, online := uint32(0), false
+		if cand != nil {
+			cid = cand.ID
+			online = cand.Status == candidates.CandidateStatusOnline && !punished[cid]
+		}
+		isval := ds.Validators.GetByTmAddress(tm) != nil
+		if cand != nil && online && isval {
+			punished[cid] = true
+		}
+		in = append(in, Z(int64(cid)), b2z(online), b2z(isval))
+	}
+	// balances of the owners of the funds due now
+	type ak struct {
+		a types.Address
+		c types.CoinID
+	}
+	pre := map[ak]*big.Int{}
+	var keys []ak
+	for _, f := range t.fundsAt(h) {
+		k := ak{f.Addr, types.CoinID(f.Coin)}
+		if _, ok := pre[k]; !ok {
+			pre[k] = cp(ds.Accounts.GetBalance(k.a, k.c))
+			keys = append(keys, k)
+			t.syncBal(k.a, k.c)
+		}
+	}
+	// moves due now whose target candidate is gone: they must come back as funds due one unbond period later (fix c9a3e76)
+	unbondDue := h + types.GetUnbondPeriod()
+	var lost []fundKey
+	for _, f := range t.fundsAt(h) {
+		if f.Move != 0 && !ds.Candidates.Exists(ds.Candidates.PubKey(uint32(f.Move))) {
+			lost = append(lost, f)
+		}
+	}
+	nd.Time = nd.Time.Add(5 * time.Second)
+	var votes []abci.VoteInfo
+	for _, v := range nd.curValidators() {
+		addr := make([]byte, len(v.tm))
+		copy(addr, v.tm[:])
+		votes = append(votes, abci.VoteInfo{Validator: abci.Validator{Address: addr, Power: 1}, SignedLastBlock: true})
+	}
+	var evs []abci.Evidence
+	for _, i := range ev {
+		addr := make([]byte, 20)
+		copy(addr, nd.Vals[i].TmAdr[:])
+		evs = append(evs, abci.Evidence{Type: abci.EvidenceType_DUPLICATE_VOTE, Validator: abci.Validator{Address: addr, Power: 1}, Height: int64(h) - 1, Time: nd.Time})
+	}
+	ok := nd.guard("BeginBlock", func() {
+		nd.App.BeginBlock(abci.RequestBeginBlock{Header: tmproto.Header{Height: int64(h), Time: nd.Time, ChainID: "verif"},
+			LastCommitInfo: abci.LastCommitInfo{Votes: votes}, ByzantineValidators: evs})
+	})
+	if !ok {
+		t.dead = true
+		t.crashes++
+		stack := nd.Stacks[len(nd.Stacks)-1]
+		if strings.Contains(stack, "coreV2/minter/blockchain.go:383") && strings.Contains(stack, "candidates.go:730") {
+			// Candidates.Delegate towards a candidate that is no longer in the list
+			t.c.Op(in, L(Z(2), Z(1602)))
+			var gone []string
+			for _, f := range t.fundsAt(h) {
+				if f.Move != 0 && !t.ds().Candidates.Exists(t.ds().Candidates.PubKey(uint32(f.Move))) {
+					gone = append(gone, fmt.Sprintf("%s of coin %d from candidate %d to candidate %d", f.Value, f.Coin, f.Cand, f.Move))
+				}
+			}
+			t.fail("c16-move-target-removed", fmt.Sprintf("C16: BeginBlock %d panics (%s) paying out a stake move whose target candidate was removed after the move was accepted: the moved coins (%s) never reach a candidate and every node stops at this height", h, stack, strings.Join(gone, "; ")))
+		} else {
+			t.c.Op(in, L(Z(2), Z(-1)))
+			t.fail("c07-panic", "panic: "+nd.Panics[len(nd.Panics)-1]+" "+stack)
+		}
+		return false
+	}
+	t.bouncedNow = len(lost)
+	t.bounced += len(lost)
+	if len(lost) > 0 {
+		// evidence in the same block may have slashed the value: compare owner, origin, coin, target 0 and the paid value
+		back := map[fundKey]int{}
+		for _, f := range t.fundsAt(unbondDue) {
+			back[f]++
+		}
+		for _, f := range t.fundsAt(h) {
+			if f.Move != 0 && !t.ds().Candidates.Exists(t.ds().Candidates.PubKey(uint32(f.Move))) {
+				k := fundKey{unbondDue, f.Addr, f.Cand, f.Coin, f.Value, 0}
+				if back[k] == 0 {
+					t.fail("c16-move-target-removed", fmt.Sprintf("C16: the stake move %+v matured at block %d, its target candidate was removed in flight, and the coins are not frozen for the owner until %d: lost", f, h, unbondDue))
+				}
+				back[k]--
+			}
+		}
+	}
+	paid := t.fundsAt(h) // the list as it was paid (values after a byzantine slash); it is dropped at Commit
+	out := L(Z(0), Z(int64(len(paid))))
+	want := map[ak]*big.Int{}
+	for _, f := range paid {
+		out = append(out, addrZ(f.Addr), Z(int64(f.Coin)), bi(f.Value), Z(int64(f.Move)))
+		if f.Move == 0 {
+			k := ak{f.Addr, types.CoinID(f.Coin)}
+			if want[k] == nil {
+				want[k] = big.NewInt(0)
+			}
+			want[k].Add(want[k], bi(f.Value))
+		} else if t.ds().Candidates.Exists(t.ds().Candidates.PubKey(uint32(f.Move))) {
+			t.movesArrived++
+		}
+		t.matured++
+	}
+	t.paidNow = len(paid)
+	t.c.Op(in, out)
+	for _, k := range keys {
+		now := t.ds().Accounts.GetBalance(k.a, k.c)
+		t.c.Op(L(Z(30), addrZ(k.a), Z(int64(k.c))), L(cp(now)))
+		w := want[k]
+		if w == nil {
+			w = big.NewInt(0)
+		}
+		if d := new(big.Int).Sub(now, pre[k]); d.Cmp(w) != 0 {
+			t.fail("c16-maturity-amount", fmt.Sprintf("C16: BeginBlock %d changed the balance of %s (coin %d) by %s, its matured balance-bound funds sum to %s", h, k.a.String(), k.c, d, w))
+		}
+	}
+	if len(paid) > 0 {
+		t.nontriv = true
+	}
+	return true
+}
+
+func c16Price(com types.Commission, x *c16tx, per string) (*big.Int, *big.Int) {
+	n := Z(int64(len(x.Payload)))
+	pb := new(big.Int).Mul(n, bi(com.PayloadByte))
+	c := new(big.Int).Mul(Z(int64(x.GP)), new(big.Int).Add(bi(per), pb))
+	f := new(big.Int).Mul(Z(int64(x.GP)), new(big.Int).Add(bi(com.FailedTx), pb))
+	return c, f
+}
+
+type c16touch struct {
+	pk   types.Pubkey
+	a    types.Address
+	coin types.CoinID
+}
+
+// deliver signs x with the sender's next nonce (base gas coin), delivers it, and emits the model operation.
+func (t *c16T) deliver(x *c16tx, h uint64, lockDue map[uint64]bool, touched *[]c16touch, newDues map[uint64]bool) (TxResult, bool) {
+	nd := t.nd
+	ds := t.ds()
+	raw := nd.MkTx(x.A, x.Typ, x.Data, 0, ds.Accounts.GetNonce(x.A.Addr)+1, x.GP, x.Payload)
+	com := nd.Genesis.Commission
+	sender := x.A.Addr
+	var in []*big.Int
+	var pk types.Pubkey
+	coin := types.CoinID(0)
+	keyed := false
+	var value *big.Int
+	unbond, move := types.GetUnbondPeriod(), types.GetMovePeriod()
+	dues := []uint64{h + unbond, h + move}
+	switch d := x.Data.(type) {
+	case transaction.UnbondDataV3:
+		c, f := c16Price(com, x, com.Unbond)
+		in = L(Z(10), addrZ(sender), c, f, Z(1), t.candZ(d.PubKey), Z(int64(d.Coin)), cp(d.Value))
+		pk, coin, keyed, value = d.PubKey, d.Coin, true, d.Value
+	case transaction.MoveStakeData:
+		c, f := c16Price(com, x, com.MoveStake)
+		in = L(Z(10), addrZ(sender), c, f, Z(2), t.candZ(d.FromPubKey), t.candZ(d.ToPubKey), Z(int64(d.Coin)), cp(d.Value))
+		pk, coin, keyed, value = d.FromPubKey, d.Coin, true, d.Value
+	case transaction.LockStakeData:
+		c, f := c16Price(com, x, com.LockStake)
+		in = L(Z(10), addrZ(sender), c, f, Z(3))
+	case transaction.LockData:
+		c, f := c16Price(com, x, com.Lock)
+		in = L(Z(10), addrZ(sender), c, f, Z(4), Z(int64(d.DueBlock)), Z(int64(d.Coin)), cp(d.Value))
+		coin, value = d.Coin, d.Value
+		dues = append(dues, uint64(d.DueBlock))
+	case transaction.DelegateDataV260:
+		c, f := c16Price(com, x, com.Delegate)
+		hr, verdict := int64(0), int64(0)
+		cs := state.NewCheckState(ds)
+		if ci := cs.Coins().GetCoin(d.Coin); ci != nil && ci.BaseOrHasReserve() {
+			hr = 1
+		}
+		if cs.Candidates().Exists(d.PubKey) && cs.Coins().Exists(d.Coin) {
+			v := new(big.Int).Set(d.Value)
+			if w := t.waitOf(d.PubKey, sender, d.Coin); w != nil {
+				v.Add(v, w)
+			}
+			if v.Sign() > 0 {
+				low, big_ := cs.Candidates().IsDelegatorStakeAllowed(sender, d.PubKey, d.Coin, v)
+				if low {
+					verdict = 1
+				} else if big_ {
+					verdict = 2
+				}
+			}
+		}
+		in = L(Z(10), addrZ(sender), c, f, Z(5), t.candZ(d.PubKey), Z(int64(d.Coin)), cp(d.Value), Z(hr), Z(verdict))
+		pk, coin, keyed, value = d.PubKey, d.Coin, true, d.Value
+	}
+	if in == nil {
+		// not a transaction of the schedule model: delivered, then the model is told what it changed
+		tr, ok := nd.DeliverOnly(raw)
+		if !ok {
+			t.dead = true
+			t.fail("c07-panic", "panic: "+nd.Panics[len(nd.Panics)-1])
+			return tr, false
+		}
+		if tr.Code == 0 {
+			switch d := x.Data.(type) {
+			case transaction.DeclareCandidacyData:
+				id := uint64(t.ds().Candidates.ID(d.PubKey))
+				t.candSt[id] = 1
+				t.c.Op(L(Z(4), Z(int64(id)), Z(1)), L(Z(0)))
+				t.stSent[id] = ""
+				t.upSent[id] = "?"
+				t.c.Op(L(Z(7), Z(int64(id)), Z(1), addrZ(sender), Z(int64(d.Coin)), cp(d.Stake)), L(Z(0)))
+				*touched = append(*touched, c16touch{d.PubKey, sender, d.Coin})
+			case transaction.CreateCoinData, transaction.CreateTokenData:
+				if id, err := strconv.Atoi(tr.Tags["tx.coin_id"]); err == nil && !t.coinSet[uint64(id)] {
+					t.coinSet[uint64(id)] = true
+					t.c.Op(L(Z(6), Z(int64(id))), L(Z(0)))
+				}
+			}
+		}
+		return tr, true
+	}
+	// the model needs the sender's balances as of now (fees, rewards and other transactions are not its business)
+	t.syncBal(sender, 0)
+	if coin != 0 {
+		t.syncBal(sender, coin)
+	}
+	preLock := ds.Accounts.GetLockStakeUntilBlock(sender)
+	var preStake, preWait *big.Int
+	if keyed {
+		preStake, preWait = cp(t.stakeOf(pk, sender, coin)), cp(t.waitOf(pk, sender, coin))
+	}
+	preLen := map[uint64]int{}
+	for _, d := range dues {
+		preLen[d] = len(t.fundsAt(d))
+	}
+	tr, ok := nd.DeliverOnly(raw)
+	if !ok {
+		t.dead = true
+		t.c.Op(in, L(Z(-2), Z(-1)))
+		t.fail("c07-panic", "panic: "+nd.Panics[len(nd.Panics)-1]+" "+nd.Stacks[len(nd.Stacks)-1])
+		return tr, false
+	}
+	t.codes[fmt.Sprintf("%s:%d", x.Kind, tr.Code)]++
+	ds = t.ds()
+	// the fund this transaction created
+	var made []fundKey
+	seen := map[uint64]bool{}
+	for _, d := range dues {
+		if seen[d] {
+			continue
+		}
+		seen[d] = true
+		if l := t.fundsAt(d); len(l) > preLen[d] {
+			made = append(made, l[preLen[d]:]...)
+		}
+	}
+	t.txFunds = append(t.txFunds, made...)
+	crt := L(Z(0), Z(0), Z(0), Z(0), Z(0), Z(0), Z(0))
+	if len(made) == 1 {
+		f := made[0]
+		crt = L(Z(1), Z(int64(f.H)), addrZ(f.Addr), Z(int64(f.Cand)), Z(int64(f.Coin)), bi(f.Value), Z(int64(f.Move)))
+		newDues[f.H] = true
+		t.created++
+	} else if len(made) > 1 {
+		t.fail("c16-many-funds", fmt.Sprintf("C16: one %s transaction created %d frozen funds", x.Kind, len(made)))
+	}
+	postStake, postWait := (*big.Int)(nil), (*big.Int)(nil)
+	if keyed {
+		postStake, postWait = t.stakeOf(pk, sender, coin), t.waitOf(pk, sender, coin)
+	}
+	if !c16ModelCodes[tr.Code] {
+		t.unmodelled++
+		return tr, true
+	}
+	out := L(Z(int64(tr.Code)), cp(ds.Accounts.GetBalance(sender, 0)), cp(ds.Accounts.GetBalance(sender, coin)), Z(int64(ds.Accounts.GetLockStakeUntilBlock(sender))))
+	out = append(out, crt...)
+	out = append(out, optZ(postStake), optZ(postWait), Z(-999)) // pending updates cannot be observed inside a block: checked at the end of the block
+	t.c.Op(in, out)
+	t.txOps++
+	if keyed && tr.Code == 0 {
+		*touched = append(*touched, c16touch{pk, sender, coin})
+	}
+	// ---- monitors, independent of the model ----
+	zero := big.NewInt(0)
+	nz := func(b *big.Int) *big.Int {
+		if b == nil {
+			return zero
+		}
+		return b
+	}
+	switch d := x.Data.(type) {
+	case transaction.UnbondDataV3, transaction.MoveStakeData:
+		_, isMove := d.(transaction.MoveStakeData)
+		period := unbond
+		if isMove {
+			period = move
+		}
+		if tr.Code == 0 {
+			t.nontriv = true
+			checkUnlockTag(t.mon, tr, h, period, t.where)
+			left := new(big.Int).Sub(new(big.Int).Add(nz(preStake), nz(preWait)), new(big.Int).Add(nz(postStake), nz(postWait)))
+			if left.Cmp(value) != 0 {
+				t.fail("c16-leave-amount", fmt.Sprintf("C16: accepted %s of %s at block %d took %s out of the sender's stake and waitlist", x.Kind, value, h, left))
+			}
+			if len(made) != 1 || made[0].Value != value.String() || made[0].H != h+period || made[0].Addr != sender || (isMove) != (made[0].Move != 0) {
+				t.fail("c16-leave-fund", fmt.Sprintf("C16: accepted %s of %s at block %d created the frozen funds %+v, expected one of that value due at %d", x.Kind, value, h, made, h+period))
+			}
+			if !isMove && preLock > h {
+				t.fail("c16-locked-unbond", fmt.Sprintf("C16: Unbond accepted at block %d while the sender's stake is locked until %d", h, preLock))
+			}
+			if mv, ok := d.(transaction.MoveStakeData); ok && !ds.Candidates.Exists(mv.ToPubKey) {
+				t.fail("c16-move-target", "C16: MoveStake towards a public key that is not a candidate was accepted")
+			}
+		} else {
+			if nz(preStake).Cmp(nz(postStake)) != 0 || nz(preWait).Cmp(nz(postWait)) != 0 || len(made) != 0 {
+				t.fail("c16-reject-changed", fmt.Sprintf("C16: rejected %s (code %d) changed the stake, the waitlist or the frozen funds", x.Kind, tr.Code))
+			}
+			if !isMove && preLock > h && tr.Code != 416 {
+				// a locked sender is told so before anything else is looked at
+				t.fail("c16-locked-code", fmt.Sprintf("C16: Unbond of a sender locked until %d rejected at block %d with code %d, not UnbondBlocked", preLock, h, tr.Code))
+			}
+		}
+	case transaction.LockData:
+		if tr.Code == 0 {
+			t.nontriv = true
+			lockDue[uint64(d.DueBlock)] = true
+			if len(made) != 1 || made[0].H != uint64(d.DueBlock) || made[0].Value != d.Value.String() || made[0].Move != 0 || made[0].Cand != 0 || uint64(d.DueBlock) <= h {
+				t.fail("c16-lock-due", fmt.Sprintf("C16: accepted Lock of %s until %d at block %d created the frozen funds %+v", d.Value, d.DueBlock, h, made))
+			}
+		} else if len(made) != 0 {
+			t.fail("c16-reject-changed", fmt.Sprintf("C16: rejected Lock (code %d) created a frozen fund", tr.Code))
+		}
+	case transaction.LockStakeData:
+		post := ds.Accounts.GetLockStakeUntilBlock(sender)
+		if tr.Code == 0 {
+			t.nontriv = true
+			if post != h+types.GetIncreasedRewardsPeriod() {
+				t.fail("c16-lockstake-until", fmt.Sprintf("C16: LockStake accepted at block %d locks until %d, expected %d", h, post, h+types.GetIncreasedRewardsPeriod()))
+			}
+		} else if post != preLock {
+			t.fail("c16-reject-changed", fmt.Sprintf("C16: rejected LockStake (code %d) changed the lock", tr.Code))
+		}
+	}
+	return tr, true
+}
+
+// Block runs one block: BeginBlock with evidence, the transactions next() yields (built against the
+// in-flight state), EndBlock + Commit; then the block-level comparisons and monitors.
+func (t *c16T) Block(next func() *c16tx, ev []int, onTx func(*c16tx, TxResult)) bool {
+	if t.dead {
+		return false
+	}
+	nd := t.nd
+	h := uint64(nd.Height + 1)
+	t.syncFromExport()
+	if !t.begin(h, ev) {
+		return false
+	}
+	lockDue := map[uint64]bool{}
+	newDues := map[uint64]bool{}
+	var touched []c16touch
+	if t.bouncedNow > 0 {
+		newDues[h+types.GetUnbondPeriod()] = true
+	}
+	// the targets of the moves that arrived in this BeginBlock
+	for _, f := range t.fundsAt(h) {
+		if f.Move != 0 && t.ds().Candidates.Exists(t.ds().Candidates.PubKey(uint32(f.Move))) {
+			touched = append(touched, c16touch{t.ds().Candidates.PubKey(uint32(f.Move)), f.Addr, types.CoinID(f.Coin)})
+		}
+	}
+	ntx := 0
+	for next != nil {
+		x := next()
+		if x == nil {
+			break
+		}
+		tr, ok := t.deliver(x, h, lockDue, &touched, newDues)
+		if !ok {
+			return false
+		}
+		ntx++
+		if onTx != nil {
+			onTx(x, tr)
+		}
+	}
+	// the stake slots right before EndBlock (its recalculation may merge updates into them and delete candidates)
+	preEnd := map[uint64][]types.Stake{}
+	for _, c := range t.prev.Candidates {
+		if t.ds().Candidates.Exists(c.PubKey) {
+			var l []types.Stake
+			for _, s := range t.ds().Candidates.GetStakes(c.PubKey) {
+				l = append(l, types.Stake{Owner: s.Owner, Coin: uint64(s.Coin), Value: s.Value.String()})
+			}
+			preEnd[c.ID] = l
+		}
+	}
+	tC := time.Now()
+	okEnd := nd.EndAndCommit(h)
+	c16CommitTime += time.Since(tC)
+	if !okEnd {
+		t.dead = true
+		t.fail("c07-panic", "panic: "+nd.Panics[len(nd.Panics)-1])
+		return false
+	}
+	if t.sparse && ntx == 0 && len(ev) == 0 && t.paidNow == 0 && h%stakePeriod != 0 {
+		// nothing the schedule is about can have changed: no transaction, no evidence, no fund due, no stake recalculation
+		t.blocks++
+		return true
+	}
+	tE := time.Now()
+	cur := nd.Export()
+	c16ExportTime += time.Since(tE)
+	unbond := types.GetUnbondPeriod()
+	// candidates removed by this EndBlock
+	still := map[uint64]bool{}
+	for _, c := range cur.Candidates {
+		still[c.ID] = true
+	}
+	var removedIDs []uint64
+	for id, s := range t.candSt {
+		if s == 1 && !still[id] {
+			removedIDs = append(removedIDs, id)
+		}
+	}
+	sort.Slice(removedIDs, func(i, j int) bool { return removedIDs[i] < removedIDs[j] })
+	for _, id := range removedIDs {
+		// the stake slots as they were when EndBlock started (the model keeps its own pending updates)
+		if l, ok := preEnd[id]; ok {
+			s, z := encStakes(l)
+			t.stSent[id] = s
+			t.c.Op(append(L(Z(2), Z(int64(id)), Z(int64(len(l)))), z...), L(Z(0)))
+		}
+		// funds of this candidate due one unbond period from now, minus those this block's transactions created
+		type rk struct {
+			a types.Address
+			c uint64
+		}
+		agg := map[rk]*big.Int{}
+		for _, f := range cur.FrozenFunds {
+			if f.Height == h+unbond && f.CandidateID == id && f.MoveToCandidateID == 0 {
+				k := rk{f.Address, f.Coin}
+				if agg[k] == nil {
+					agg[k] = big.NewInt(0)
+				}
+				agg[k].Add(agg[k], bi(f.Value))
+			}
+		}
+		for _, f := range t.txFunds {
+			if f.H == h+unbond && f.Cand == id && f.Move == 0 {
+				k := rk{f.Addr, f.Coin}
+				if agg[k] != nil {
+					agg[k].Sub(agg[k], bi(f.Value))
+				}
+			}
+		}
+		type row struct {
+			a types.Address
+			c uint64
+			v *big.Int
+		}
+		var rows []row
+		for k, v := range agg {
+			if v.Sign() == 0 {
+				continue
+			}
+			rows = append(rows, row{k.a, k.c, v})
+		}
+		sort.Slice(rows, func(i, j int) bool {
+			if c := addrZ(rows[i].a).Cmp(addrZ(rows[j].a)); c != 0 {
+				return c < 0
+			}
+			return rows[i].c < rows[j].c
+		})
+		out := L(Z(int64(len(rows))))
+		for _, r := range rows {
+			out = append(out, addrZ(r.a), Z(int64(r.c)), r.v)
+		}
+		due := Z(int64(h + unbond))
+		if len(rows) == 0 {
+			due = Z(-999)
+		}
+		out = append(out, due, Z(0), Z(int64(id)))
+		t.c.Op(L(Z(21), Z(int64(id)), Z(0)), out)
+		t.candSt[id] = 2
+		delete(t.stSent, id)
+		delete(t.upSent, id)
+		t.removed++
+		t.nontriv = true
+		newDues[h+unbond] = true
+	}
+	// frozen funds: the total, and the lists this block touched (all of them after evidence)
+	t.c.Op(L(Z(33)), L(Z(int64(h)), Z(int64(len(cur.FrozenFunds)))))
+	if len(ev) > 0 {
+		t.evidenceBlocks++
+		for _, f := range cur.FrozenFunds {
+			newDues[f.Height] = true
+		}
+		newDues[h+unbond] = true
+	}
+	var dl []uint64
+	for d := range newDues {
+		dl = append(dl, d)
+	}
+	sort.Slice(dl, func(i, j int) bool { return dl[i] < dl[j] })
+	for _, d := range dl {
+		var l []*big.Int
+		n := 0
+		for _, f := range cur.FrozenFunds {
+			if f.Height == d {
+				l = append(l, addrZ(f.Address), Z(int64(f.CandidateID)), Z(int64(f.Coin)), bi(f.Value), Z(int64(f.MoveToCandidateID)))
+				n++
+			}
+		}
+		t.c.Op(L(Z(32), Z(int64(d))), append(L(Z(int64(n))), l...))
+	}
+	// what the owner holds with the candidates this block's transactions and arrived moves touched: stake + pending update
+	// the model changed these entries itself: they are sent again at the start of the next block
+	for _, k := range touched {
+		if id := uint64(t.ds().Candidates.ID(k.pk)); id != 0 {
+			t.stSent[id] = "?"
+			t.upSent[id] = "?"
+			wk := fmt.Sprintf("%d/%s/%d", id, k.a.String(), k.coin)
+			t.wlSent[wk] = "?"
+			t.wlRows[wk] = wlRow{id, k.a, uint64(k.coin)}
+		}
+	}
+	done := map[string]bool{}
+	if h%stakePeriod == 0 {
+		touched = nil // EndBlock has just paid the delegators' rewards into their stakes as well (PayRewards): not the schedule's business
+	}
+	for _, k := range touched {
+		id := t.ds().Candidates.ID(k.pk)
+		key := fmt.Sprintf("%d/%s/%d", id, k.a.String(), k.coin)
+		if id == 0 || done[key] {
+			continue
+		}
+		done[key] = true
+		sum := big.NewInt(0)
+		for _, c := range cur.Candidates {
+			if c.ID != uint64(id) {
+				continue
+			}
+			for _, s := range append(append([]types.Stake{}, c.Stakes...), c.Updates...) {
+				if s.Owner == k.a && s.Coin == uint64(k.coin) {
+					sum.Add(sum, bi(s.Value))
+				}
+			}
+		}
+		t.c.Op(L(Z(34), Z(int64(id)), addrZ(k.a), Z(int64(k.coin))), L(sum))
+	}
+	c16Monitor(h, &t.prev, &cur, lockDue, len(ev) > 0, ntx == 0, t.mon, t.where)
+	t.prev = cur
+	t.txFunds = nil
+	t.blocks++
+	return true
+}
+
+func (t *c16T) End(kind string) {
+	t.c.End(t.nontriv, kind)
+}
+
+// ---- scripted scenarios -------------------------------------------------------------------------------
+
+func c16Seq(l ...*c16tx) func() *c16tx {
+	i := 0
+	return func() *c16tx {
+		if i >= len(l) {
+			return nil
+		}
+		i++
+		return l[i-1]
+	}
+}
+
+// BlockTxs runs one block with the given transactions and returns their results.
+func (t *c16T) BlockTxs(ev []int, l ...*c16tx) []TxResult {
+	var res []TxResult
+	t.Block(c16Seq(l...), ev, func(_ *c16tx, r TxResult) { res = append(res, r) })
+	return res
+}
+
+func (t *c16T) Empty(n int) {
+	for i := 0; i < n && !t.dead; i++ {
+		t.Block(nil, nil, nil)
+	}
+}
+
+func txUnbond(a Acct, pk types.Pubkey, coin types.CoinID, v *big.Int) *c16tx {
+	return &c16tx{A: a, Typ: transaction.TypeUnbond, Data: transaction.UnbondDataV3{PubKey: pk, Coin: coin, Value: v}, GP: 1, Kind: "unbond"}
+}
+func txMove(a Acct, from, to types.Pubkey, coin types.CoinID, v *big.Int) *c16tx {
+	return &c16tx{A: a, Typ: transaction.TypeMoveStake, Data: transaction.MoveStakeData{FromPubKey: from, ToPubKey: to, Coin: coin, Value: v}, GP: 1, Kind: "move"}
+}
+func txLockStake(a Acct) *c16tx {
+	return &c16tx{A: a, Typ: transaction.TypeLockStake, Data: transaction.LockStakeData{}, GP: 1, Kind: "lockstake"}
+}
+func txLock(a Acct, due uint64, coin types.CoinID, v *big.Int) *c16tx {
+	return &c16tx{A: a, Typ: transaction.TypeLock, Data: transaction.LockData{DueBlock: uint32(due), Coin: coin, Value: v}, GP: 1, Kind: "lock"}
+}
+func txDelegate(a Acct, pk types.Pubkey, coin types.CoinID, v *big.Int) *c16tx {
+	return &c16tx{A: a, Typ: transaction.TypeDelegate, Data: transaction.DelegateDataV260{PubKey: pk, Coin: coin, Value: v}, GP: 1, Kind: "delegate"}
+}
+func txDeclare(a Acct, pk types.Pubkey, stake *big.Int) *c16tx {
+	return &c16tx{A: a, Typ: transaction.TypeDeclareCandidacy, Data: transaction.DeclareCandidacyData{Address: a.Addr, PubKey: pk, Commission: 10, Coin: 0, Stake: stake}, GP: 1, Kind: "declare"}
+}
+
+func c16Expect(t *c16T, name string, res []TxResult, want ...uint32) {
+	if len(res) != len(want) {
+		t.fail("c16-scenario", fmt.Sprintf("scenario %s: %d results, expected %d", name, len(res), len(want)))
+		return
+	}
+	for i := range want {
+		if res[i].Code != want[i] {
+			t.fail("c16-scenario", fmt.Sprintf("scenario %s: transaction %d answered code %d (%s), the scenario was written for %d", name, i, res[i].Code, res[i].Log, want[i]))
+		}
+	}
+}
+
+func spec100() *GenesisSpec {
+	spec := &GenesisSpec{NAccounts: 6, Balance: pip(100000000), NVals: 4, ExtraCands: 96}
+	for i := 0; i < 100; i++ {
+		spec.Stakes = append(spec.Stakes, pip(int64(20000-100*i)))
+	}
+	return spec
+}
+
+type c16Scenario struct {
+	name string
+	spec func() *GenesisSpec
+	run  func(t *c16T, nd *Node, name string)
+}
+
+var c16Scenarios = []c16Scenario{
+	{"move-to-non-candidate", func() *GenesisSpec { return &GenesisSpec{NAccounts: 6, Balance: pip(100000000), NVals: 4} }, func(t *c16T, nd *Node, name string) {
+		a := nd.Accts[0]
+		unknown := mkVal(9001).Pub
+		r := t.BlockTxs(nil, txMove(a, nd.Vals[0].Pub, unknown, 0, pip(5000)), txLockStake(a), txMove(a, nd.Vals[0].Pub, unknown, 0, pip(5000)), txMove(a, nd.Vals[0].Pub, nd.Vals[0].Pub, 0, pip(1)))
+		if len(r) > 0 && r[0].Code == 0 {
+			t.fail("c16-move-target", "C16: MoveStake towards a public key that is not a candidate was accepted")
+		}
+		c16Expect(t, name, r, 403, 0, 403, 417)
+		t.Empty(2)
+	}},
+	{"unbond-in-first-block", func() *GenesisSpec { return &GenesisSpec{NAccounts: 6, Balance: pip(100000000), NVals: 4} }, func(t *c16T, nd *Node, name string) {
+		r := t.BlockTxs(nil, txUnbond(nd.Accts[0], nd.Vals[0].Pub, 0, pip(100)))
+		if os.Getenv("VERIF_DEBUG") != "" {
+			fmt.Fprintf(os.Stderr, "first block: height=%d funds=%+v res=%+v\n", nd.Height, t.prev.FrozenFunds, r)
+		}
+		c16Expect(t, name, r, 0)
+		if len(t.prev.FrozenFunds) != 1 {
+			t.fail("c16-first-block-height", fmt.Sprintf("C16: an accepted Unbond in the first block left %d frozen funds in the state export", len(t.prev.FrozenFunds)))
+		}
+	}},
+	{"waitlist", func() *GenesisSpec {
+		return &GenesisSpec{NAccounts: 6, Balance: pip(100000000), NVals: 6, Mutate: func(st *types.AppState) {
+			a4, a1 := st.Accounts[4].Address, st.Accounts[1].Address
+			st.Waitlist = append(st.Waitlist,
+				types.Waitlist{CandidateID: 1, Owner: a4, Coin: 0, Value: pip(300).String()},
+				types.Waitlist{CandidateID: 2, Owner: a4, Coin: 0, Value: pip(50).String()},
+				types.Waitlist{CandidateID: 2, Owner: a1, Coin: 0, Value: pip(40).String()},
+				types.Waitlist{CandidateID: 3, Owner: a4, Coin: 0, Value: pip(70).String()})
+		}}
+	}, func(t *c16T, nd *Node, name string) {
+		a4, a1 := nd.Accts[4], nd.Accts[1]
+		v := nd.Vals
+		r := t.BlockTxs(nil,
+			txUnbond(a4, v[0].Pub, 0, pip(100)),        // part of the waitlisted 300
+			txUnbond(a4, v[0].Pub, 0, pip(200)),        // exactly the rest
+			txUnbond(a4, v[0].Pub, 0, big.NewInt(1)),   // nothing left, no stake
+			txUnbond(a4, v[1].Pub, 0, pip(60)),         // more than the waitlisted 50, no stake
+			txUnbond(a1, v[1].Pub, 0, pip(100)),        // waitlisted 40 + 60 of the stake
+			txMove(a4, v[1].Pub, v[0].Pub, 0, pip(50)), // a move of exactly the waitlisted amount
+			txMove(a4, v[2].Pub, v[0].Pub, 0, pip(30)), // a move of a part of a waitlisted amount
+			txMove(a4, v[2].Pub, v[0].Pub, 0, pip(41))) // more than what is left there
+		c16Expect(t, name, r, 0, 0, 404, 412, 0, 0, 0, 412)
+		r = t.BlockTxs(nil, txDelegate(a4, v[2].Pub, 0, pip(5)), txUnbond(a4, v[2].Pub, 0, pip(1))) // the delegation takes the waitlisted rest along
+		c16Expect(t, name, r, 0, 404)
+		t.Empty(int(types.GetMovePeriod()) + 1)
+	}},
+	{"lock-boundary", func() *GenesisSpec {
+		return &GenesisSpec{NAccounts: 6, Balance: pip(100000000), NVals: 4, Mutate: func(st *types.AppState) {
+			st.Accounts[0].LockStakeUntilBlock = InitialHeight + 2
+			st.Waitlist = append(st.Waitlist, types.Waitlist{CandidateID: 2, Owner: st.Accounts[0].Address, Coin: 0, Value: pip(20).String()})
+		}}
+	}, func(t *c16T, nd *Node, name string) {
+		a := nd.Accts[0]
+		v := nd.Vals
+		r := t.BlockTxs(nil, txUnbond(a, v[0].Pub, 0, pip(10)), txUnbond(a, v[1].Pub, 0, pip(5)), txMove(a, v[0].Pub, v[1].Pub, 0, pip(10)), txUnbond(a, v[0].Pub, 0, big.NewInt(0)))
+		c16Expect(t, name, r, 416, 416, 0, 416)
+		r = t.BlockTxs(nil, txUnbond(a, v[0].Pub, 0, pip(10)))
+		c16Expect(t, name, r, 416)
+		r = t.BlockTxs(nil, txUnbond(a, v[0].Pub, 0, pip(10)), txUnbond(a, v[1].Pub, 0, pip(5))) // block = LockStakeUntilBlock: no longer blocked
+		c16Expect(t, name, r, 0, 0)
+		r = t.BlockTxs(nil, txLockStake(a), txUnbond(a, v[0].Pub, 0, pip(10)), txMove(a, v[0].Pub, v[2].Pub, 0, pip(10)))
+		c16Expect(t, name, r, 0, 416, 0)
+		r = t.BlockTxs(nil, txUnbond(a, v[0].Pub, 0, pip(10)), txLockStake(a))
+		c16Expect(t, name, r, 416, 0)
+		t.Empty(2)
+	}},
+	{"lock-due-edges", func() *GenesisSpec { return &GenesisSpec{NAccounts: 6, Balance: pip(100000000), NVals: 4} }, func(t *c16T, nd *Node, name string) {
+		h := uint64(nd.Height + 1)
+		var l []*c16tx
+		l = append(l, txLock(nd.Accts[0], h, 0, pip(1)), txLock(nd.Accts[0], h-1, 0, pip(1)), txLock(nd.Accts[0], h+1, 0, pip(7)), txLock(nd.Accts[1], h+1, 0, big.NewInt(0)),
+			txLock(nd.Accts[1], h+3, 7, pip(1)), txLock(nd.Accts[1], h+3, 0, pip(200000000)))
+		for i := 0; i < 14; i++ {
+			l = append(l, txLock(nd.Accts[i%6], h+3, 0, pip(int64(1+i))))
+		}
+		l = append(l, txUnbond(nd.Accts[2], nd.Vals[2].Pub, 0, pip(3)))
+		r := t.BlockTxs(nil, l...)
+		want := []uint32{123, 123, 0, 0, 102, 107}
+		for i := 0; i < 15; i++ {
+			want = append(want, 0)
+		}
+		c16Expect(t, name, r, want...)
+		t.Empty(5)
+	}},
+	{"byzantine-moves-in-flight", func() *GenesisSpec { return &GenesisSpec{NAccounts: 6, Balance: pip(100000000), NVals: 6} }, func(t *c16T, nd *Node, name string) {
+		a0, a1 := nd.Accts[0], nd.Accts[1]
+		v := nd.Vals
+		r := t.BlockTxs(nil, txMove(a0, v[0].Pub, v[1].Pub, 0, pip(1000)), txUnbond(a0, v[0].Pub, 0, pip(501)), txMove(a1, v[1].Pub, v[0].Pub, 0, pip(333)), txDelegate(a1, v[0].Pub, 0, pip(77)))
+		c16Expect(t, name, r, 0, 0, 0, 0)
+		t.BlockTxs([]int{0, 0}) // two pieces of evidence against validator 0 in one block
+		t.BlockTxs([]int{0})    // and a third one in the next
+		t.Empty(int(types.GetUnbondPeriod()) + 2)
+	}},
+	{"removal-with-funds-in-flight", spec100, func(t *c16T, nd *Node, name string) {
+		t.sparse = true
+		v := nd.Vals
+		owner := nd.Accts[99%6]
+		r := t.BlockTxs(nil, txUnbond(owner, v[99].Pub, 0, pip(50)), txMove(owner, v[99].Pub, v[0].Pub, 0, pip(70)), txDelegate(nd.Accts[2], v[99].Pub, 0, pip(11)))
+		c16Expect(t, name, r, 0, 0, 0)
+		r = t.BlockTxs(nil, txDeclare(nd.Accts[1], mkVal(500).Pub, pip(15000)))
+		c16Expect(t, name, r, 0)
+		for nd.Height%stakePeriod != 0 && !t.dead {
+			t.Empty(1)
+		}
+		if t.removed == 0 {
+			t.fail("c16-scenario", "scenario "+name+": the lowest candidate was not removed")
+		}
+		// an Unbond and a MoveStake out of the waitlist do not need the candidate; towards it nothing is accepted any more
+		r = t.BlockTxs(nil, txMove(nd.Accts[0], v[0].Pub, v[99].Pub, 0, pip(5)), txUnbond(owner, v[99].Pub, 0, pip(5)), txDelegate(nd.Accts[2], v[99].Pub, 0, pip(5)))
+		c16Expect(t, name, r, 403, 403, 403)
+		t.Empty(int(types.GetMovePeriod()) + 3) // the move out of the removed candidate arrives; unbond maturities: see the byzantine scenario
+	}},
+	{"move-target-removed", spec100, func(t *c16T, nd *Node, name string) {
+		t.sparse = true
+		v := nd.Vals
+		r := t.BlockTxs(nil, txMove(nd.Accts[0], v[0].Pub, v[99].Pub, 0, pip(100)))
+		c16Expect(t, name, r, 0)
+		r = t.BlockTxs(nil, txDeclare(nd.Accts[1], mkVal(500).Pub, pip(15000)))
+		c16Expect(t, name, r, 0)
+		moveDue := uint64(nd.Height) - 1 + types.GetMovePeriod()
+		t.Empty(int(types.GetMovePeriod()) + 2)
+		if t.bounced != 1 && !t.dead {
+			t.fail("c16-scenario", "scenario "+name+": the move did not mature with its target removed")
+		}
+		if !t.dead {
+			// a node that survives must not have lost the coins: they are with a candidate or frozen for the owner
+			held := big.NewInt(0)
+			for _, f := range t.prev.FrozenFunds {
+				if f.Address == nd.Accts[0].Addr && f.CandidateID == 1 && f.Height > moveDue {
+					held.Add(held, bi(f.Value))
+				}
+			}
+			for _, c := range t.prev.Candidates {
+				for _, s := range append(append([]types.Stake{}, c.Stakes...), c.Updates...) {
+					if s.Owner == nd.Accts[0].Addr && c.ID == 100 {
+						held.Add(held, bi(s.Value))
+					}
+				}
+			}
+			if held.Cmp(pip(100)) != 0 {
+				t.fail("c16-move-target-removed", fmt.Sprintf("C16: a move of %s towards a candidate removed before maturity left the owner with %s staked or frozen after the due block", pip(100), held))
+			}
+			if !c16Long {
+				return // quick runs stop here: the re-frozen fund is an ordinary unbond fund from now on (531 more blocks of a 100-candidate chain)
+			}
+			// ... and they arrive in the owner's balance exactly one unbond period after the move's due block
+			before := t.ds().Accounts.GetBalance(nd.Accts[0].Addr, 0)
+			for uint64(nd.Height) < moveDue+types.GetUnbondPeriod()-1 && !t.dead {
+				t.Empty(1)
+			}
+			if !t.dead && t.ds().Accounts.GetBalance(nd.Accts[0].Addr, 0).Cmp(before) != 0 {
+				t.fail("c16-early", "C16: the coins of a move whose target was removed came back before one unbond period had passed")
+			}
+			t.Empty(1)
+			if !t.dead {
+				if got := new(big.Int).Sub(t.ds().Accounts.GetBalance(nd.Accts[0].Addr, 0), before); got.Cmp(pip(100)) != 0 {
+					t.fail("c16-move-target-removed", fmt.Sprintf("C16: one unbond period after the due block of a move whose target was removed the owner's balance grew by %s, not by the moved %s", got, pip(100)))
+				}
+			}
+		}
+	}},
+}
+
 func runC16(seed uint64, n int, out, stats string, _ []string) {
 	var mon []MonitorFailure
 	dist := map[string]int{}
 	codes := map[string]int{}
-	nontriv := 0
-	blocks := 0
-	matured := 0
-	// scripted: move to a key that is not a candidate, with the stake locked
-	func() {
-		nd := nodeStd(4)
-		defer nd.Cleanup()
-		a := nd.Accts[0]
-		unknown := mkVal(9001).Pub
-		prev := nd.Export()
-		r := nd.Block([][]byte{nd.MkTx(a, transaction.TypeMoveStake, transaction.MoveStakeData{FromPubKey: nd.Vals[0].Pub, ToPubKey: unknown, Coin: 0, Value: pip(5000)}, 0, 0, 1, nil)}, nil)
-		cur := nd.Export()
-		c16Monitor(uint64(nd.Height), &prev, &cur, map[uint64]bool{}, false, false, &mon, "scenario move-to-non-candidate")
-		if len(r.Txs) == 1 && r.Txs[0].Code == 0 {
-			mon = append(mon, MonitorFailure{What: "C16: MoveStake towards a public key that is not a candidate was accepted", Key: "c16-move-target", Replay: "scenario move-to-non-candidate"})
-		}
+	c := NewCases(out)
+	tot := &c16T{}
+	acc := func(t *c16T) {
+		tot.blocks += t.blocks
+		tot.matured += t.matured
+		tot.movesArrived += t.movesArrived
+		tot.created += t.created
+		tot.removed += t.removed
+		tot.txOps += t.txOps
+		tot.unmodelled += t.unmodelled
+		tot.crashes += t.crashes
+		tot.evidenceBlocks += t.evidenceBlocks
+		tot.bounced += t.bounced
+	}
+	c16Long = n >= 20
+	for _, sc := range c16Scenarios {
+		t0 := time.Now()
+		nd := newNode(sc.spec())
+		t := newC16T(nd, c, &mon, "vharness c16 scenario "+sc.name, codes)
+		sc.run(t, nd, sc.name)
+		t.End("scenario")
+		acc(t)
+		nd.Cleanup()
 		dist["scenario"]++
-	}()
-	// scripted: an unbond in the very first block of a chain must mature one unbond period later
-	func() {
-		nd := nodeStd(4)
-		defer nd.Cleanup()
-		prev := nd.Export()
-		rr := nd.Block([][]byte{nd.MkTx(nd.Accts[0], transaction.TypeUnbond, transaction.UnbondDataV3{PubKey: nd.Vals[0].Pub, Coin: 0, Value: pip(100)}, 0, 0, 1, nil)}, nil)
-		cur := nd.Export()
 		if os.Getenv("VERIF_DEBUG") != "" {
-			fmt.Fprintf(os.Stderr, "first block: height=%d funds=%+v res=%+v\n", nd.Height, cur.FrozenFunds, rr.Txs)
+			fmt.Fprintf(os.Stderr, "scenario %s: %v, %d blocks (export %v, end+commit %v)\n", sc.name, time.Since(t0), t.blocks, c16ExportTime, c16CommitTime)
 		}
-		c16Monitor(uint64(nd.Height), &prev, &cur, map[uint64]bool{}, false, false, &mon, "scenario unbond-in-first-block")
-		checkUnlockTag(&mon, rr.Txs[0], uint64(nd.Height), types.GetUnbondPeriod(), "scenario unbond-in-first-block")
-		if len(cur.FrozenFunds) != 1 {
-			mon = append(mon, MonitorFailure{What: fmt.Sprintf("C16: an accepted Unbond in the first block left %d frozen funds in the state export (unlock tag %s)", len(cur.FrozenFunds), rr.Txs[0].Tags["tx.unlock_block_id"]), Key: "c16-first-block-height", Replay: "scenario unbond-in-first-block"})
-		}
-		dist["scenario"]++
-	}()
+	}
 	for i := 0; i < n; i++ {
 		s := seed*1000003 + uint64(i)
 		r := NewRng(s)
 		spec := stdSpec(r)
+		lockedAcct, lockedFor := r.Intn(spec.NAccounts), uint64(r.Intn(40))
+		nWait := r.Intn(4)
+		spec.Mutate = func(st *types.AppState) {
+			if r.Intn(2) == 0 {
+				st.Accounts[lockedAcct].LockStakeUntilBlock = InitialHeight + lockedFor
+			}
+			for k := 0; k < nWait; k++ {
+				st.Waitlist = append(st.Waitlist, types.Waitlist{CandidateID: uint64(1 + r.Intn(len(st.Candidates))), Owner: st.Accounts[r.Intn(len(st.Accounts))].Address, Coin: 0, Value: pip(int64(1 + r.Intn(400))).String()})
+			}
+		}
 		nd := newNode(spec)
 		w := newWorld(nd, r)
+		for _, wl := range nd.Genesis.Waitlist {
+			for _, a := range nd.Accts {
+				if a.Addr == wl.Owner {
+					w.Stakes = append(w.Stakes, stakeRef{a, nd.Vals[wl.CandidateID-1].Pub, 0})
+				}
+			}
+		}
 		w.Weights = map[string]int{"delegate": 10, "unbond": 10, "move": 10, "lockstake": 2, "lock": 6, "declare": 3, "candoff": 2, "candon": 2, "send": 2, "createcoin": 1}
 		nb := 200 + r.Intn(500)
-		prev := nd.Export()
-		locked := map[types.Address]uint64{}
 		where := fmt.Sprintf("vharness c16 -seed %d -n %d (history %d, seed %d)", seed, n, i, s)
-		for b := 0; b < nb; b++ {
+		t := newC16T(nd, c, &mon, where, codes)
+		for b := 0; b < nb && !t.dead; b++ {
 			w.beginBlock()
-			var txs [][]byte
-			var gens []*GenTx
 			// transactions only in the first 150 blocks and only in even blocks, so that maturities are observed in empty blocks
+			k := 0
 			if b < 150 && b%2 == 0 {
-				for k := r.Intn(5); k > 0; k-- {
-					if g := w.Gen(); g != nil {
-						txs = append(txs, g.Raw)
-						gens = append(gens, g)
-					}
-				}
+				k = r.Intn(5)
 			}
-			opts := BlockOpts{}
-			ev := false
+			var ev []int
 			if b < 150 && r.Intn(60) == 0 {
-				opts.Evidence = []int{r.Intn(len(nd.Vals))}
-				ev = true
+				ev = []int{r.Intn(len(nd.Vals))}
 			}
-			br := nd.Block(txs, &opts)
-			if br.Panic != "" {
-				mon = append(mon, MonitorFailure{What: "panic: " + br.Panic, Key: "c07-panic", Replay: where})
-				break
-			}
-			lockDue := map[uint64]bool{}
-			for j, tr := range br.Txs {
-				if j >= len(gens) {
-					break
+			next := func() *c16tx {
+				if k <= 0 {
+					return nil
 				}
-				w.Observe(gens[j], tr)
-				codes[fmt.Sprintf("%s:%d", gens[j].Kind, tr.Code)]++
-				if tr.Code == 0 {
-					switch d := gens[j].Data.(type) {
-					case transaction.LockData:
-						lockDue[uint64(d.DueBlock)] = true
-					case transaction.LockStakeData:
-						locked[gens[j].Sender.Addr] = uint64(nd.Height)
-					case transaction.MoveStakeData:
-						checkUnlockTag(&mon, tr, uint64(nd.Height), types.GetMovePeriod(), where)
-					case transaction.UnbondDataV3:
-						checkUnlockTag(&mon, tr, uint64(nd.Height), types.GetUnbondPeriod(), where)
-						if _, ok := locked[gens[j].Sender.Addr]; ok {
-							until := nd.App.CurrentState().Accounts().GetLockStakeUntilBlock(gens[j].Sender.Addr)
-							if until > uint64(nd.Height) {
-								mon = append(mon, MonitorFailure{What: fmt.Sprintf("C16: Unbond accepted at block %d while the sender's stake is locked until %d", nd.Height, until), Key: "c16-locked-unbond", Replay: where})
-							}
-						}
-					}
+				k--
+				g := w.Gen()
+				if g == nil {
+					return nil
 				}
-			}
-			cur := nd.Export()
-			for _, f := range prev.FrozenFunds {
-				if f.Height == uint64(nd.Height) {
-					matured++
+				x := &c16tx{A: g.Sender, Typ: g.Type, Data: g.Data, GP: uint32(1 + r.Intn(3)/2), Kind: g.Kind}
+				if r.Intn(6) == 0 {
+					x.Payload = make([]byte, r.Intn(40))
 				}
+				if ld, ok := x.Data.(transaction.LockData); ok && r.Intn(4) == 0 {
+					ld.DueBlock = uint32(nd.Height + int64(r.Intn(3))) // the current block - 1, the current block, the next one
+					x.Data = ld
+				}
+				return x
 			}
-			c16Monitor(uint64(nd.Height), &prev, &cur, lockDue, ev, len(txs) == 0, &mon, where)
-			prev = cur
-			blocks++
+			t.Block(next, ev, func(x *c16tx, tr TxResult) {
+				w.Observe(&GenTx{Kind: x.Kind, Sender: x.A, Type: x.Typ, Data: x.Data}, tr)
+			})
 		}
+		t.End("history")
+		acc(t)
 		nd.Cleanup()
 		for k, v := range w.TypeDist {
 			dist[k] += v
 		}
-		nontriv++
 	}
-	writeStats(stats, &Stats{Property: "C16", Seed: seed, Cases: n + 1, Ops: blocks, NonTrivial: nontriv + 1,
-		Rule: "scripted move-to-non-candidate scenario; seeded histories of 200-700 blocks on testnet periods (unbond 531, move 177): delegations, unbonds, moves (some towards non-candidates), stake locks, Lock txs, declarations, status switches, byzantine evidence in the first 150 blocks, then empty blocks until every fund matured; after every block the frozen-fund schedule and (in empty blocks) the exact balance credits are checked on the node's exports; distinct by seed",
-		Dist: dist, Samples: []string{fmt.Sprintf("histories=%d blocks=%d matured_funds=%d", n, blocks, matured)}, Monitor: mon,
-		Extra: map[string]interface{}{"blocks": blocks, "matured_funds": matured, "codes": codes}})
-	NewCases(out).Close()
+	c.Close()
+	writeStats(stats, &Stats{Property: "C16", Seed: seed, Cases: c.NCases, Ops: c.NOps, NonTrivial: c.NonTriv,
+		Rule: "scripted scenarios (move to a non-candidate incl. with a locked stake, unbond in the first block of a chain, unbond / move / delegate over waitlisted amounts, the LockStake boundary block, Lock due edges and many funds maturing in one block, byzantine evidence with moves and unbonds in flight, candidate removal with funds in flight, move target removed before maturity: regression of c9a3e76, followed until the coins are back in the owner's balance) and seeded histories of 200-700 blocks on testnet periods (unbond 531, move 177, lock-stake 34560): delegations, unbonds, moves (some towards non-candidates), stake locks (some from the genesis, ending inside the history), Lock txs (some with due = current-1/current/current+1), waitlisted amounts from the genesis, declarations, status switches, byzantine evidence in the first 150 blocks, then empty blocks until the funds matured. Every BeginBlock, every Unbond/MoveStake/LockStake/Lock/Delegate, every candidate removal and the touched frozen-fund lists are compared with Model/Schedule.v (model 20); the monitors check the schedule directly on in-flight state and exports. Non-trivial: at least one accepted schedule transaction, matured fund or removal; distinct by case text",
+		Dist: dist, Samples: []string{fmt.Sprintf("histories=%d blocks=%d model_tx_ops=%d created_funds=%d matured_funds=%d moves_arrived=%d removed_candidates=%d evidence_blocks=%d bounced_moves=%d crashes=%d", n, tot.blocks, tot.txOps, tot.created, tot.matured, tot.movesArrived, tot.removed, tot.evidenceBlocks, tot.bounced, tot.crashes)}, Monitor: mon,
+		Extra: map[string]interface{}{"blocks": tot.blocks, "matured_funds": tot.matured, "moves_arrived": tot.movesArrived, "created_funds": tot.created, "removed_candidates": tot.removed,
+			"model_tx_ops": tot.txOps, "unmodelled_codes": tot.unmodelled, "crashes": tot.crashes, "codes": codes,
+			"modelled_tx_types": "Unbond(V3) MoveStake LockStake Lock Delegate(V260, verdict of IsDelegatorStakeAllowed as input); gas coin: base"}})
 }
